@@ -1572,8 +1572,13 @@ fn section_c(fns: &[FnInfo]) -> Result<String, String> {
         "/-- `unescape_f_string_part` (src/parser/expr.rs): `let mut piece_start = <this>;` -/\ndef fPieceInit : Nat := {init}\n\n\
          /-- `unescape_f_string_part`: after a brace escape found at byte `i`, `piece_start = i + <this>` -/\ndef fPieceStep : Nat := {step}\n\n"
     ));
-    for (name, lean) in [("unescape_f_string_part", "arith_unescape_f_string_part"), ("unescape_str", "arith_unescape_str"), ("unescape_char", "arith_unescape_char")] {
-        let f = get(fns, EXPR, None, name)?;
+    for (owner, name, lean) in [
+        (None, "unescape_f_string_part", "arith_unescape_f_string_part"),
+        (None, "unescape_str", "arith_unescape_str"),
+        (None, "unescape_char", "arith_unescape_char"),
+        (Some("Parser"), "simple_literal", "arith_simple_literal"),
+    ] {
+        let f = get(fns, EXPR, owner, name)?;
         out.push_str(&format!(
             "/-- `{name}` (src/parser/expr.rs): every `+` / `-` / `*` expression (outermost), assignment and `let x = <integer>` in source order, locals renamed -/\ndef {lean} : List String := {}\n\n",
             lean_list(&arith_of(f))
